@@ -253,6 +253,12 @@ B("refill guard <=", ["C10"], [(PS, "len(self.factory.windowPublish[cnx]) < self
 B("counted-loop refill (D11 re-introduced)", ["C10"],
   [(PS, "        while self.factory.queuePublishTx[cnx] and len(self.factory.windowPublish[cnx]) < self._window:",
     "        N = min(self._window - len(self.factory.windowPublish[cnx]), len(self.factory.queuePublishTx[cnx]))\n        for i in range(0,N):")], {"C10": ["W-BUDGET"]})
+B("no refill after the clean-CONNACK purge (D21 re-introduced)", ["C10"],
+  [(PS, "            self._purgeSession(MQTTSessionCleared())\n            # the purge freed window slots: send what publish() queued behind them\n            self._refillPublish(dup=False)\n", "            self._purgeSession(MQTTSessionCleared())\n")], {"C10": ["W-TRIGGER"]})
+N("refill after either branch of mqttConnectionMade", ["C10", "C09", "C12", "C13"],
+  [(PS, "            self._purgeSession(MQTTSessionCleared())\n            # the purge freed window slots: send what publish() queued behind them\n            self._refillPublish(dup=False)\n        else:\n            self._syncSession()\n", "            self._purgeSession(MQTTSessionCleared())\n        else:\n            self._syncSession()\n        self._refillPublish(dup=False)\n")])
+N("refill at the end of the purge when called from the CONNACK", ["C10", "C12"],
+  [(PS, "            self._purgeSession(MQTTSessionCleared())\n            # the purge freed window slots: send what publish() queued behind them\n            self._refillPublish(dup=False)\n", "            self._purgeSession(MQTTSessionCleared())\n            if self.factory.queuePublishTx[self.addr]:\n                self._refillPublish(dup=False)\n")])
 B("handlePUBACK without refill", ["C10"],
   [(PS, "            del self.factory.windowPublish[self.addr][response.msgId]\n            self._refillPublish(dup=False)", "            del self.factory.windowPublish[self.addr][response.msgId]")], {"C10": ["W-TRIGGER"]})
 B("appendleft in doPublish", ["C10"], [(PS, "        self.factory.queuePublishTx[self.addr].append(request)", "        self.factory.queuePublishTx[self.addr].appendleft(request)")], {"C10": ["W-FIFO"]})
